@@ -344,7 +344,7 @@ pub fn run(ctx: &mut Ctx) {
         return;
     }
     let tp = TempProject::new("hist");
-    let nhist = if ctx.thorough() { 8_000 } else { 400 };
+    let nhist = if ctx.thorough() { 8_000 } else { 1_200 };
     for _ in 0..nhist {
         tp.reset();
         let mut rng = Rng(ctx.rng.next());
